@@ -4,11 +4,11 @@ from props import gocommon
 THEOREMS = ["Folang.Props.C02." + t for t in """compositeTp_complete compositeTpList_complete compositeTp_sound compositeTpList_sound
 distinct_nodup mem_distinct hoist_domain hoist_first_occurrence hoist_names alloc_inv_step alloc_fresh""".split()] + \
     ["Folang.Props.C02Unify." + t for t in "unify_general unify_most_general unifyC_sound unifyC_principal unifyC_complete unify_complete occurs_unsolvable clash_head_unsolvable beqTy_eq apply_respects principal_numbering_is_hoist".split()] + \
-    ["Folang.Unify." + t for t in "unify_fuel_mono unify_fuel_indep unify_answer_unique elim_vars inner unify_terminates unify_total".split()]
+    ["Folang.Unify." + t for t in "unify_fuel_mono unify_fuel_indep unify_answer_unique elim_vars inner unify_terminates unify_total owes_elim unify_owes unify_sound unifyC_eq_unify unifyC_total".split()]
 
 ASSUMPTIONS = [
     "PARTIAL. model: compositeTp / compositeTpList / unifyType on first-order type terms (variable | constructor applied to types), hoistTVar + slice.Distinct + newTName, the type-variable allocator; field-access types and record/union info are not modelled",
-    "reference inference (Model/Unify.lean, Props/C02Unify.lean): a work-list unifier on the same type terms; unifyC_sound (its answer solves every equation; certified: the answer is re-checked by a decidable test inside the definition) and unifyC_principal (it is MOST GENERAL: every solution of the equations factors through it), unifyC_complete (it answers clash only for systems without any solution, occurs check included), so the types it assigns to the parameters and the result are the principal types of any function whose body yields those equations. unify_terminates / unify_total (Props/C02Term.lean): for EVERY system of equations some step bound yields an answer (ok or clash) — measure: variables that can still occur, then total size — and unify_fuel_indep (Props/C02Fuel.lean) every larger bound yields the same answer; the concrete bound the oracle uses is not proved adequate: an exhausted bound is answered as outside-fragment (counted, not compared); none occur. It is the specification, not a model of fc's resolver. Stream c02.graph: random constraint graphs - un-annotated parameters, a body built from slice literals, pairs, equality, slice.Head/Last, frt.Fst/Snd, destructuring lets, function-typed parameters applied once, generic record literals, generic union construction (with and without payload), if/else expressions, calls of annotated and of generic user functions (each use instantiated on its own), arithmetic / comparison with a literal operand, literals; the equations are collected by the harness while it builds the expressions (independently of fc; solvable by construction, the hidden ground typing is usually not the most general); the Go signature the real compiler emits (type parameters, parameter and result types, read back with go/parser) must EQUAL the principal signature with leftover variables numbered by first occurrence (principal_numbering_is_hoist: that numbering is the hoisting rule T{k} of the compiler model, hoist_first_occurrence); a difference is a counterexample (the program is in the replay)",
+    "reference inference (Model/Unify.lean, Props/C02Unify.lean): a work-list unifier on the same type terms; unifyC_sound (its answer solves every equation; certified: the answer is re-checked by a decidable test inside the definition) and unifyC_principal (it is MOST GENERAL: every solution of the equations factors through it), unifyC_complete (it answers clash only for systems without any solution, occurs check included), so the types it assigns to the parameters and the result are the principal types of any function whose body yields those equations. unify_sound (Props/C02Sound.lean): the work-list algorithm is sound WITHOUT its certificate (whenever it answers ok its bindings solve every equation), so the re-check never fails (unifyC_eq_unify) and unifyC_total: the certified reference answers ok or clash for every system with some step bound and identically with every larger one. unify_terminates / unify_total (Props/C02Term.lean): for EVERY system of equations some step bound yields an answer (ok or clash) — measure: variables that can still occur, then total size — and unify_fuel_indep (Props/C02Fuel.lean) every larger bound yields the same answer; the concrete bound the oracle uses is not proved adequate: an exhausted bound is answered as outside-fragment (counted, not compared); none occur. It is the specification, not a model of fc's resolver. Stream c02.graph: random constraint graphs - un-annotated parameters, a body built from slice literals, pairs, equality, slice.Head/Last, frt.Fst/Snd, destructuring lets, function-typed parameters applied once, generic record literals, generic union construction (with and without payload), if/else expressions, calls of annotated and of generic user functions (each use instantiated on its own), arithmetic / comparison with a literal operand, literals; the equations are collected by the harness while it builds the expressions (independently of fc; solvable by construction, the hidden ground typing is usually not the most general); the Go signature the real compiler emits (type parameters, parameter and result types, read back with go/parser) must EQUAL the principal signature with leftover variables numbered by first occurrence (principal_numbering_is_hoist: that numbering is the hoisting rule T{k} of the compiler model, hoist_first_occurrence); a difference is a counterexample (the program is in the replay)",
     "NOT proved: that the resolver fixpoint (EquivSet / EquivInfo / updateResOne / updateResolver) computes a most general unifier of all collected relations, and that constraint collection over the AST is complete; these are tied by the stream below",
     "tie/search: generated functions whose parameter types are determined by the body through the promised constructs (arithmetic/comparison with a typed operand, calls of functions with known signatures, record/union construction, tuples, slices, destructuring, function-typed parameters applied once); EVERY subset of redundant annotations erased -> the function's emitted Go must be identical; undetermined parameters must become T0, T1, … in first-occurrence order; every generic function is called at two instantiations; batches are compiled (go build = Go type check) and run, stdout vs expectation",
 ]
@@ -19,7 +19,7 @@ def run(ctx):
     ctx.assumptions += ASSUMPTIONS
     ctx.partial.append("resolver fixpoint / principality end to end not proved")
     ctx.ensure_oracle()
-    mods = ["Folang.Props.C02", "Folang.Props.C02Unify", "Folang.Props.C02Fuel", "Folang.Props.C02Term"]
+    mods = ["Folang.Props.C02", "Folang.Props.C02Unify", "Folang.Props.C02Fuel", "Folang.Props.C02Term", "Folang.Props.C02Sound"]
     ctx.lake_build(mods)
     ctx.audit(THEOREMS, mods)
     if ctx.tier == "thorough":
